@@ -205,6 +205,38 @@ def leg(ctx, rep, rnd, tier):
             raw = b"".join(struct.pack(e + "I", 1) + b"x\0" + b"\0" * 2 for _ in range(n))[:-2]       # no padding after the last element
             aux.append("count %s %s %s" % ("le" if le else "be", vlib.hexs(b"as"), vlib.hexs(struct.pack(e + "I", len(raw)) + raw))); exp.append(str(n))
     ares, _ = vlib.run_lines(reader, aux)
+    # ... and against the implementation: the same arrays as the first argument of a little-endian message (the host order, so that
+    # get_fixed_array's pointer into the message shows the bytes as marshalled), through the `arr1` harness command
+    from rawbus import Msg
+    ilines, iexp = [], []
+    for l, x in zip(aux, exp):
+        cmd, o, sg, body = l.split(" ")
+        if o != "le" or bytes.fromhex(sg) in (b"ah", b"ab"):      # get_fixed_array is not defined for unix fds; the generated element values are not booleans
+            continue
+        base = Msg(4, 0, 1, {1: "/a", 2: "a.b", 3: "S", 8: bytes.fromhex(sg).decode()}, "", ())
+        hb = bytearray(base.encode())
+        raw = bytes.fromhex(body)
+        struct.pack_into("<I", hb, 4, len(raw))
+        ilines.append("arr1 " + vlib.hexs(bytes(hb) + raw)); iexp.append((cmd, x, l))
+    ires, icr3 = vlib.run_lines(info["wire_h"], ilines)
+    for line, err in icr3:
+        rep.violation("implementation crashed in get_element_count / get_fixed_array: %s: %s" % (line[:300], err[-600:]), {"input": line, "stderr": err})
+    n_arr = 0
+    for (cmd, x, l), il, r in zip(iexp, ilines, ires):
+        if r in ("!CRASH",) or not r.startswith("count="):
+            if r != "!CRASH":
+                rep.violation("arr1 harness gave `%s` for %s" % (r[:80], il[:200]), {"input": il, "names": "harness arr1 / generator"}, found_input=False)
+            continue
+        n_arr += 1
+        cnt = r.split(" ")[0][6:]
+        fx = r.split("fixed=", 1)[1]
+        if cmd == "count" and cnt != x:
+            rep.violation("dbus_message_iter_get_element_count returns %s, the array has %s elements (proved reader model agrees with the latter): %s" % (cnt, x, il[:200]), {"input": il, "impl": r, "model": x})
+        if cmd == "fixed":
+            xn, _, xh = x.partition(" ")
+            want = "%s %s" % (xn, xh or "-")
+            if fx != want:
+                rep.violation("dbus_message_iter_get_fixed_array returns `%s`, the encoded elements are `%s`: %s" % (fx[:120], want[:120], il[:200]), {"input": il, "impl": r, "model": x})
     for l, x, a in zip(aux, exp, ares):
         if x != a:
             rep.violation("reader model: `%s` gives %s, expected %s" % (l, a, x), {"input": l, "names": "Wire.Reader.element_count / read_fixed_multi"}, found_input=False)
@@ -214,7 +246,7 @@ def leg(ctx, rep, rnd, tier):
         kinds[k] = kinds.get(k, 0) + 1
         shapes.add(i)
     return {"reader_messages_compared": len(keep), "reader_distinct_dumps": len(shapes), "reader_kinds": kinds,
-            "reader_disagreements": len(diffs), "reader_generated_not_accepted": not_accepted, "reader_count_fixed_cases": len(aux),
+            "reader_disagreements": len(diffs), "reader_generated_not_accepted": not_accepted, "reader_count_fixed_cases": len(aux), "reader_count_fixed_cases_vs_impl": n_arr,
             "reader_samples": [{"cmd": l[:200], "dump": i[:160]} for (k, h, i), l in list(zip(keep, rlines))[::max(1, len(keep) // 6)]][:6],
             "reader_rule": "wiregen.rand_message bodies (all types, both byte orders) + directed shapes: empty/short arrays of every element "
                            "alignment at offsets 0..8, arrays of every fixed-size type (long, nested with empties, as dict values, in structs), "
